@@ -36,6 +36,7 @@ fn replacement_values() -> Vec<J> {
 /// non-existent locations derived from an existing document
 fn missing_paths(d: &J) -> Vec<(String, &'static str)> {
     let mut out = vec![];
+    let mut huge: Vec<(String, &'static str)> = vec![];
     for l in d.all_locs() {
         let node = d.at(&l).unwrap();
         let mut with = |s: Step, kind: &'static str| {
@@ -58,6 +59,15 @@ fn missing_paths(d: &J) -> Vec<(String, &'static str)> {
                 }
             }
             J::Arr(a) => {
+                // indices far beyond any array (and beyond 2^53, 2^63, 2^64, 2^128): no location
+                if l.len() <= 2 {
+                    let base = npath::render(&l);
+                    for big in ["9007199254740991", "9007199254740992", "9223372036854775807", "9223372036854775808", "18446744073709551615", "18446744073709551616", "18446744073709551617", "100000000000000000000", "340282366920938463463374607431768211456", "36893488147419103232"] {
+                        huge.push((format!("{}[{}]", base, big), "huge-index"));
+                        huge.push((format!("{}[{}][0]", base, big), "huge-index"));
+                        huge.push((format!("{}[{}]['a']", base, big), "huge-index"));
+                    }
+                }
                 with(Step::Idx(a.len()), "index-equals-length");
                 with(Step::Idx(a.len() + 5), "index-beyond-length");
                 for i in 0..a.len().min(3) {
@@ -71,6 +81,7 @@ fn missing_paths(d: &J) -> Vec<(String, &'static str)> {
             }
         }
     }
+    out.extend(huge);
     out
 }
 
@@ -308,6 +319,51 @@ pub fn run(ctx: &Ctx) -> Result<Evidence, String> {
             acc.sample(json!({"document_nodes": doc.j.node_count(), "a_location": npath::render(&locs[locs.len() - 1])}));
         }
     });
+    // concurrent use: every thread resolves the paths of documents of its own, many distinct
+    // paths in quick succession (tables of recently resolved paths are filled and overwritten by
+    // all threads at once); every answer must be the node at that location
+    let mut acc = acc;
+    {
+        let threads = ctx.threads.clamp(2, 16);
+        let rounds = ctx.tier.pick(30, 600);
+        let budget_s: f64 = ctx.tier.pick(2, 40) as f64;
+        let pool: Vec<Doc> = docs.iter().filter(|d| { let n = d.node_count(); n >= 8 && n <= 400 }).step_by(7).take(threads * 6).map(Doc::new).collect();
+        let barrier = std::sync::Barrier::new(threads);
+        let checked = std::sync::atomic::AtomicU64::new(0);
+        std::thread::scope(|s| {
+            for t in 0..threads {
+                let (pool, barrier, checked) = (&pool, &barrier, &checked);
+                s.spawn(move || {
+                    // paths and expected nodes are prepared before the start: the threads then
+                    // do nothing but resolve
+                    let mine: Vec<(&Doc, Vec<(String, usize)>)> = (0..6).map(|k| { let doc = &pool[(t * 6 + k) % pool.len()]; (doc, doc.j.all_locs().iter().map(|l| (npath::render(l), libapi::addr(value_at(&doc.value, l)))).collect()) }).collect();
+                    barrier.wait();
+                    let started = std::time::Instant::now();
+                    for round in 0..rounds * 200 {
+                        // bounded by operations and by time (quick: 2 s, thorough: 40 s)
+                        if round >= rounds && started.elapsed().as_secs_f64() > budget_s {
+                            break;
+                        }
+                        let (doc, paths) = &mine[round % 6];
+                        for (p, w) in paths {
+                            let p = p.clone();
+                            let want = Some(*w);
+                            let got = lib_reference(&doc.value, &p);
+                            checked.fetch_add(1, std::sync::atomic::Ordering::Relaxed);
+                            if !matches!((&got, want), (Ok(Some(a)), Some(w)) if *a == w) {
+                                ctx.violate(
+                                    &format!("with {} threads resolving paths at the same time, reference({:?}) does not return the node at that location: {:?}", threads, p, got.as_ref().map(|o| o.map(|_| "another node"))),
+                                    json!({"kind":"schedule","path": p, "threads": threads, "document": serde_json::from_str::<Value>(&doc.text()).unwrap_or_default()}),
+                                );
+                                return;
+                            }
+                        }
+                    }
+                });
+            }
+        });
+        acc.count("concurrent_reference_calls_checked", checked.load(std::sync::atomic::Ordering::Relaxed));
+    }
     let mut ev = Evidence::new("cases: for every document (all small trees over keys a,b,0; documents whose member names contain / ~ ~0 ~1 % digits-only ' \\ blanks, empty, unicode, quote-wrapped; curated and random documents; built documents 60..700 levels deep) every location's Normalized Path is given to reference (pointer-compared with the node found by an independent walk); non-existent paths of ten kinds must answer None; writes of every JSON type through reference_mut are compared with our own location-based update of a copy (this one comparison covers 'that node changed' and 'nothing else changed'); update histories in random order over all paths one query returned, compared with the model after each step. Non-trivial = distinct (document, location) pairs of depth >= 1 resolved + distinct histories of length >= 2.");
     ev.set("exhaustive", json!(false));
     ev.set("documents", json!(docs.len()));
